@@ -262,10 +262,11 @@ class FusionART(BaseART):
         """
         skip_channels = [self.n + k if k < 0 else k for k in skip_channels]
         channel_data = self.split_channel_data(X, skip_channels=skip_channels)
+        # split_channel_data returns the supplied channels only, in order
+        supplied = [i for i in range(self.n) if i not in skip_channels]
         restored_channel_data = [
-            self.modules[i].restore_data(channel_data[i])
-            for i in range(self.n)
-            if i not in skip_channels
+            self.modules[i].restore_data(channel_data[j])
+            for j, i in enumerate(supplied)
         ]
         return restored_channel_data
 
